@@ -77,6 +77,23 @@ pub fn cfgs(tier: &str) -> Vec<Cfg> {
         c(HR | HD, Some(1.3)),
         c(DT, None),
         c(EZ | FL, Some(0.75)),
+        // every Difficulty setter appears at least once in the quick tier, with the
+        // overrides set contrary to what the mods imply
+        Cfg {
+            mods: HR,
+            hr_offsets: Some(false),
+            ar: Some((7.0, false)),
+            cs: Some((6.0, true)),
+            ..Default::default()
+        },
+        Cfg {
+            mods: 0,
+            hr_offsets: Some(true),
+            od: Some((3.0, true)),
+            hp: Some((2.0, false)),
+            lazer: Some(false),
+            ..Default::default()
+        },
     ];
     if tier == "thorough" {
         v.extend([
